@@ -255,6 +255,12 @@ func Scalars(level int) []*big.Int {
 		add(v)
 	}
 
+	// single-bit neighbours of the *stored form* of 1 and of 0: a hand-written "is this scalar 1 / 0" that slips on
+	// one limb or one operator accepts a near miss of the Montgomery limbs, not of the canonical value
+	for _, v := range StoredNeighbours(n) {
+		add(v)
+	}
+
 	half := new(big.Int).Rsh(n, 1)
 	for i := int64(-2); i <= 2; i++ {
 		add(new(big.Int).Add(half, big.NewInt(i)))
@@ -339,6 +345,25 @@ func WindowScalars() []*big.Int {
 	}
 
 	sort.Slice(out, func(i, j int) bool { return out[i].Cmp(out[j]) < 0 })
+
+	return out
+}
+
+// StoredNeighbours returns the values whose Montgomery limbs differ from those of 1 (R mod m) and of 0 in exactly one
+// bit.
+func StoredNeighbours(m *big.Int) []*big.Int {
+	var out []*big.Int
+
+	for _, base := range [][4]uint64{ref.Mont(big.NewInt(1), m), {}} {
+		for b := 0; b < 256; b++ {
+			l := base
+			l[b/64] ^= 1 << (b % 64)
+
+			if raw := ref.FromLimbs(l); raw.Cmp(m) < 0 {
+				out = append(out, ref.Unmont(l, m))
+			}
+		}
+	}
 
 	return out
 }
